@@ -15,6 +15,8 @@
 (*         HT(v)           hand-written expression whose value is the      *)
 (*                         container v (not a display)                     *)
 (*         SL(v)           a display with a star-expression, value v       *)
+(*         SN(<<t>>)       a nested snapshot(t) / snapshot(): managed on  *)
+(*                         its own as an independent call site            *)
 (*         LT / TT(<<t>>)  list / tuple display                            *)
 (*         DT(<<k>>, <<t>>) dict display                                   *)
 (*         CT(c, <<t>>, <<name>>, <<t>>)  constructor call: positional     *)
@@ -35,6 +37,7 @@ IsT(n) == [t |-> "is", v |-> n]
 FS(n) == [t |-> "fs", v |-> n]
 HT(v) == [t |-> "ht", val |-> v]
 SL(v) == [t |-> "sl", val |-> v]
+SN(e) == [t |-> "sn", e |-> e]      \* a nested snapshot(...) call: e = <<term>> or <<>> (empty); an own call site
 LT(e) == [t |-> "lt", e |-> e]
 TT(e) == [t |-> "tt", e |-> e]
 DT(k, e) == [t |-> "dt", k |-> k, e |-> e]
@@ -49,6 +52,7 @@ CatAll(ss) == IF ss = <<>> THEN <<>> ELSE Head(ss) \o CatAll(Tail(ss))
 RECURSIVE Eval(_)
 Eval(tm) ==
   CASE tm.t \in {"lit", "is", "fs"} -> I(tm.v)
+    [] tm.t = "sn" -> IF tm.e = <<>> THEN I(99) ELSE Eval(tm.e[1])       \* 99: "no value yet", equal to nothing
     [] tm.t \in {"ht", "sl"} -> tm.val
     [] tm.t = "lt" -> L([j \in DOMAIN tm.e |-> Eval(tm.e[j])])
     [] tm.t = "tt" -> T([j \in DOMAIN tm.e |-> Eval(tm.e[j])])
@@ -98,7 +102,7 @@ Leaf(tm, v, A) ==
   ELSE [term |-> IF "fix" \in A THEN Canon(v) ELSE tm, cats |-> {"fix"}]
 
 Assign(tm, v, A) ==
-  CASE tm.t = "is" -> [term |-> tm, cats |-> {}]
+  CASE tm.t \in {"is", "sn"} -> [term |-> tm, cats |-> {}]
     [] tm.t = "fs" -> IF v.t = "i" THEN [term |-> tm, cats |-> {}] ELSE Leaf(tm, v, A)
     [] tm.t \in {"lit", "ht"} -> Leaf(tm, v, A)
     [] tm.t = "sl" -> IF v.t = tm.val.t THEN [term |-> tm, cats |-> {}] ELSE Leaf(tm, v, A)
@@ -187,7 +191,7 @@ Walk(script, p, oe, ne, A) ==
 \* equal except at the parts the user controls
 RECURSIVE ManagedEq(_, _)
 ManagedEq(tm, v) ==
-  CASE tm.t \in {"is", "fs"} -> TRUE
+  CASE tm.t \in {"is", "fs", "sn"} -> TRUE
     [] tm.t = "sl" -> TRUE
     [] tm.t \in {"lit", "ht"} -> VEq(Eval(tm), v)
     [] tm.t = "lt" -> v.t = "l" /\ Len(v.e) = Len(tm.e) /\ \A j \in DOMAIN tm.e : ManagedEq(tm.e[j], v.e[j])
@@ -202,7 +206,7 @@ ManagedEq(tm, v) ==
 \* the user-controlled sub-terms in textual order
 RECURSIVE UserParts(_)
 UserParts(tm) ==
-  CASE tm.t \in {"is", "fs", "sl"} -> <<tm>>
+  CASE tm.t \in {"is", "fs", "sl", "sn"} -> <<tm>>
     [] tm.t \in {"lit", "ht"} -> <<>>
     [] tm.t \in {"lt", "tt", "dt"} -> CatAll([j \in DOMAIN tm.e |-> UserParts(tm.e[j])])
     [] tm.t = "ct" -> CatAll([j \in DOMAIN tm.p |-> UserParts(tm.p[j])]) \o CatAll([j \in DOMAIN tm.ke |-> UserParts(tm.ke[j])])
